@@ -273,6 +273,10 @@ def main(argv):
         'exhaustive': bool(exhaustive and not caps),
         'known_findings_hit': {eid: n for eid, (ent, n) in known_hits.items()},
     }
+    cov['explanation'] = ('The check explores the real implementation in /repo directly (no separate model): every '
+                          'execution/evaluation is a run of the library code under the harness.  traces_validated_against_impl '
+                          'counts additional differential or conformance re-executions (merge validation, two-representative '
+                          'checks, real-file-system replays) where the check has them.')
     if hasattr(mod, 'BOUNDS'):
         cov['bounds'] = mod.BOUNDS(tier) if callable(mod.BOUNDS) else mod.BOUNDS
     ev = {
